@@ -15,7 +15,13 @@
 //! multiset with endpoints by content — the unique `k` makes this exact) and the
 //! returned rows equal the model's rows as bags.  Plain DELETE of a connected node must
 //! fail and change nothing.  A statement the engine refuses although the model accepts it
-//! is counted, not alarmed.
+//! is counted, not alarmed — except a plain DELETE refused "because the node still has
+//! relationships" when no node it deletes has one.
+//!
+//! A third of the histories (knob `focus`) follow the life cycle of a relationship id: build
+//! parallel relationships, DELETE one particular one of them (keyed on its own property map),
+//! CREATE relationships (the freed id is handed out again), come back to the ends of the
+//! deleted one (`revisit_*`: MATCH over all their relationships, DETACH DELETE, plain DELETE).
 
 use crate::kit::core::*;
 use crate::kit::cy::*;
@@ -35,7 +41,7 @@ use std::sync::Arc;
 
 pub struct C04;
 
-const TEMPLATES: [(&str, u32); 44] = [
+const TEMPLATES: [(&str, u32); 48] = [
     ("create_node", 10),
     ("create_path", 8),
     ("create_two", 3),
@@ -80,7 +86,15 @@ const TEMPLATES: [(&str, u32); 44] = [
     ("match_create_parallel_rel", 12),
     ("merge_rel_existing", 12),
     ("merge_rel_existing_incoming", 4),
+    ("delete_parallel_rel", 8),
+    ("revisit_set_rel_prop", 4),
+    ("revisit_detach_delete", 3),
+    ("revisit_delete_node", 3),
 ];
+
+/// Templates that create at least one relationship when their MATCH part finds its ends.
+const REL_CREATORS: [&str; 5] = ["create_path", "match_create_rel", "match_create_node_rel", "create_chain3", "unwind_create_path"];
+const REVISITS: [&str; 3] = ["revisit_set_rel_prop", "revisit_detach_delete", "revisit_delete_node"];
 
 fn dom(i: u64) -> V {
     match i % 8 {
@@ -133,6 +147,8 @@ struct Ctx<'a> {
     next_k: &'a mut i64,
     x: Vec<u64>,
     ret: bool,
+    /// keys of nodes that were an end of a relationship which an earlier statement of this history deleted
+    lost: &'a [i64],
 }
 
 impl<'a> Ctx<'a> {
@@ -156,6 +172,18 @@ impl<'a> Ctx<'a> {
             9000 + (r % 5) as i64
         } else {
             ks[(r / 8) as usize % ks.len()]
+        }
+    }
+    /// A node that lost a relationship earlier in the history (3 picks in 4, if there is one that still
+    /// exists), else as `key`.
+    fn revisit_key(&self, i: usize) -> i64 {
+        let ks = self.keys();
+        let alive: Vec<i64> = self.lost.iter().cloned().filter(|k| ks.contains(k)).collect();
+        let r = self.a(i);
+        if alive.is_empty() || r % 4 == 3 {
+            self.key(i)
+        } else {
+            alive[(r / 4) as usize % alive.len()]
         }
     }
     /// Existing relationships whose ends both carry a key, in id order: (k of source, k of target, type, properties).
@@ -363,6 +391,47 @@ fn resolve(t: &str, c: &mut Ctx) -> Option<Stmt> {
                 cl.push(Merge(path(np("a", vec![], vec![]), vec![(rp("r", Some(t1), pr, true), np("b", vec![], vec![]))]), oc, om));
             }
             ret = vec![rprop("a", "k"), RetItem::Type("r".into()), rprop("r", "w"), rprop("b", "k")];
+        }
+        "delete_parallel_rel" => {
+            // DELETE of ONE particular relationship, singled out by its own type and property map —
+            // as a rule one that has parallel siblings between the same ordered pair (any of them, not
+            // just the first or last created); the siblings must survive, and nothing of the deleted one
+            // may (its id is handed to the next relationship created anywhere)
+            let rels = c.rels();
+            if rels.is_empty() {
+                return None;
+            }
+            let sib: Vec<usize> = (0..rels.len()).filter(|i| rels.iter().filter(|o| (o.0, o.1) == (rels[*i].0, rels[*i].1)).count() >= 2).collect();
+            let pick = if c.a(8) % 4 != 0 && !sib.is_empty() { sib[c.a(0) as usize % sib.len()] } else { c.a(0) as usize % rels.len() };
+            let (ka, kb, t0, props) = rels[pick].clone();
+            let own = |key: &'static str| props.get(key).map(|cv| (key, Expr::Lit(V::from_canon(cv))));
+            let pr: Vec<(&str, Expr)> = own("w").into_iter().chain(own("v")).collect();
+            let t1 = if c.a(1) % 4 == 3 { None } else { Some(t0) };
+            if c.a(2) % 4 == 0 {
+                cl.push(Match(vec![path(kp("b", kb), vec![(rp("r", t1, pr, false), kp("a", ka))])]));
+            } else {
+                cl.push(Match(vec![path(kp("a", ka), vec![(rp("r", t1, pr, true), kp("b", kb))])]));
+            }
+            cl.push(Delete(vec!["r".into()], false));
+            ret = vec![rprop("a", "k"), rprop("b", "k")];
+        }
+        "revisit_set_rel_prop" => {
+            // every relationship leaving (or entering) a node that lost one earlier, whatever its type
+            let ka = c.revisit_key(0);
+            let t0 = if c.a(1) % 3 == 0 { Some(ty(c.a(1) / 3)) } else { None };
+            cl.push(Match(vec![path(kp("a", ka), vec![(rp("r", t0, vec![], c.a(2) % 2 == 0), np("b", vec![], vec![]))])]));
+            cl.push(Set(vec![SetItem::Prop("r".into(), "v".into(), Expr::Lit(dom(c.a(3))))]));
+            ret = vec![rprop("a", "k"), RetItem::Type("r".into()), rprop("r", "w"), rprop("b", "k")];
+        }
+        "revisit_detach_delete" => {
+            let k = c.revisit_key(0);
+            cl.push(Match(vec![PathPat::node(kp("n", k))]));
+            cl.push(Delete(vec!["n".into()], true));
+        }
+        "revisit_delete_node" => {
+            let k = c.revisit_key(0);
+            cl.push(Match(vec![PathPat::node(kp("n", k))]));
+            cl.push(Delete(vec!["n".into()], false));
         }
         "merge_rel_scan" => {
             let kb = c.key(1);
@@ -622,11 +691,51 @@ enum Reply {
     Panic(String),
 }
 
-fn gen_event(r: &mut Rng, clients: u64) -> Value {
+/// `focus` (knob, a third of the runs): histories shaped like the life cycle of a relationship id —
+/// build parallel relationships, delete one of them, create relationships (the freed id is handed out
+/// again), come back to the ends of the deleted one.  `prev` = the two templates drawn before this one.
+fn gen_event(r: &mut Rng, clients: u64, focus: bool, prev: (&str, &str)) -> Value {
     let w: Vec<u32> = TEMPLATES.iter().map(|t| t.1).collect();
-    let t = TEMPLATES[r.weighted(&w)].0;
+    // (all draws are made in every mode, so the stream stays aligned)
+    let mut t = TEMPLATES[r.weighted(&w)].0;
+    let (follow, which) = (r.below(6), r.below(12) as usize);
+    if focus {
+        let (before, last) = prev;
+        if last == "delete_parallel_rel" {
+            if follow < 4 {
+                t = REL_CREATORS[which % 3];
+            }
+        } else if REL_CREATORS.contains(&last) && before == "delete_parallel_rel" {
+            if follow < 4 {
+                t = REVISITS[which % 3];
+            }
+        } else if last == "match_create_parallel_rel" {
+            if follow < 4 {
+                t = "delete_parallel_rel";
+            } else if follow == 4 {
+                t = "match_create_parallel_rel";
+            }
+        } else if REL_CREATORS.contains(&last) && follow < 3 {
+            t = "match_create_parallel_rel";
+        }
+    }
     let x: Vec<u64> = (0..10).map(|_| r.below(64)).collect();
     json!({"op":"stmt","t":t,"client":r.below(clients),"x":x,"ret":r.chance(2,3)})
+}
+
+/// Keys of the ends of relationships that `pre` has and `post` has not (by id and content).
+fn lost_rel_ends(pre: &crate::kit::dump::Dump, post: &crate::kit::dump::Dump, into: &mut Vec<i64>) {
+    for (id, e) in &pre.edges {
+        if post.edges.get(id) == Some(e) {
+            continue;
+        }
+        for end in [e.src, e.dst] {
+            if let Some(V::I(k)) = pre.nodes.get(&end).and_then(|n| n.props.get("k")).map(|c| V::from_canon(c)) {
+                into.retain(|x| *x != k);
+                into.push(k);
+            }
+        }
+    }
 }
 
 /// For `MATCH (a {k: ..}), (b {k: ..}) MERGE (a)-[r:T {map}]->(b)` with a non-empty map: how many
@@ -661,6 +770,35 @@ fn merge_rel_among_parallel(m: &ModelGraph, st: &Stmt) -> Option<(usize, usize, 
         }
     }
     None
+}
+
+/// Node ids (in `m`) bound by the single keyed node pattern `MATCH (n {k: ..})` that starts the statement.
+fn match_start(m: &ModelGraph, st: &Stmt) -> Vec<u64> {
+    if let Some(Clause::Match(pats)) = st.clauses.first() {
+        if let Some(p) = pats.first() {
+            if let Some((_, Expr::Lit(kv))) = p.start.props.iter().find(|(k, _)| k == "k") {
+                let want = kv.canon();
+                return m.d.nodes.iter().filter(|(_, n)| want.is_some() && n.props.get("k") == want.as_ref()).map(|(id, _)| *id).collect();
+            }
+        }
+    }
+    Vec::new()
+}
+
+/// Node ids (in `m`) that a `MATCH (n {k: ..}) DELETE n` / `MATCH (n:L) DELETE n` statement deletes: the nodes its
+/// single node pattern matches.  Empty for any other statement shape.
+fn delete_targets(m: &ModelGraph, st: &Stmt) -> Vec<u64> {
+    match (st.clauses.first(), st.clauses.get(1)) {
+        (Some(Clause::Match(pats)), Some(Clause::Delete(vars, _))) if pats.len() == 1 && pats[0].hops.is_empty() && vars.len() == 1 && pats[0].start.var.as_ref() == Some(&vars[0]) => {
+            let p = &pats[0].start;
+            m.d.nodes
+                .iter()
+                .filter(|(_, n)| p.labels.iter().all(|l| n.labels.contains(l)) && p.props.iter().all(|(k, e)| matches!(e, Expr::Lit(v) if v.canon().is_some() && n.props.get(k) == v.canon().as_ref())))
+                .map(|(id, _)| *id)
+                .collect()
+        }
+        _ => Vec::new(),
+    }
 }
 
 /// Which part of the graph differs: computed from the two dumps only.
@@ -726,7 +864,7 @@ impl Scenario for C04 {
         16
     }
     fn rule(&self) -> &'static str {
-        "history = <=14 statements, each an instance of one of 44 templates (CREATE node/path/two/chain, MATCH..CREATE rel, UNWIND CREATE, MERGE node by key / other label / no label / non-unique property, UNWIND MERGE with duplicate keys, MERGE rel / whole path over rows, further relationships parallel to an existing one (differing in w) and MERGE rel keyed on an existing relationship's own property map (written from either end), SET literal / scan / from other variable / += map / null / rel property, REMOVE property/label, SET label, DELETE rel / node / node+rel, DETACH DELETE, five WITH pipelines) over labels A,B, types T,U, keys k,v,w, 8 values; 1-3 clients interleaved by pre-drawn picks; entry point = engine or RESP handler (knob). Non-trivial = at least 3 statements executed and compared, including one that matched existing data and wrote. Distinct = hash of the sequence of (template, clause shape) of the statements that ran."
+        "history = <=14 statements, each an instance of one of 48 templates (CREATE node/path/two/chain, MATCH..CREATE rel, UNWIND CREATE, MERGE node by key / other label / no label / non-unique property, UNWIND MERGE with duplicate keys, MERGE rel / whole path over rows, further relationships parallel to an existing one (differing in w) and MERGE rel keyed on an existing relationship's own property map (written from either end), DELETE of one particular relationship among parallel ones (keyed on its own type and property map, written from either end), revisits of nodes that lost a relationship earlier (SET over all their relationships, DETACH DELETE, plain DELETE), SET literal / scan / from other variable / += map / null / rel property, REMOVE property/label, SET label, DELETE rel / node / node+rel, DETACH DELETE, five WITH pipelines) over labels A,B, types T,U, keys k,v,w, 8 values; 1-3 clients interleaved by pre-drawn picks; entry point = engine or RESP handler (knob); a third of the histories (knob focus) are biased to the sequence parallel relationships -> delete one -> create relationships (id reuse) -> revisit the old ends. Non-trivial = at least 3 statements executed and compared, including one that matched existing data and wrote. Distinct = hash of the sequence of (template, clause shape) of the statements that ran."
     }
     fn real_components(&self) -> Vec<&'static str> {
         vec!["samyama::query::QueryEngine (parser, AST cache, planner, MutQueryExecutor, all write operators)", "GraphStore", "protocol::command::CommandHandler::handle_command + tokio::sync::RwLock (RESP runs)"]
@@ -737,7 +875,7 @@ impl Scenario for C04 {
     fn assumptions(&self) -> Vec<&'static str> {
         vec![
             "claimed for the templated fragment only; the reference model (kit::cymodel) is correct for it",
-            "engine refusals (Err where the model accepts) are counted, never alarmed; after one the model is re-synchronised from the store",
+            "engine refusals (Err where the model accepts) are counted, never alarmed; after one the model is re-synchronised from the store. One exception: `MATCH (n ..) DELETE n` refused with the 'still has relationship(s)' error although none of the nodes it deletes has a relationship (the property allows that refusal for connected nodes only)",
             "rows are not compared where openCypher 9 leaves them row-order dependent (RETURN of a property that another row of the same statement wrote, reads of deleted entities); effects are not compared where two rows of one SET write different values to one property (the run stops there)",
             "`SET a.v = b.v, b.v = a.v` style items whose reads and writes overlap inside one SET clause are not generated (sequential vs. atomic evaluation is not settled by openCypher 9)",
             "through RESP, cells are compared as far as the reply encodes them (integers exact; strings, booleans and floats by text; lists unordered)",
@@ -758,6 +896,10 @@ impl Scenario for C04 {
             "merge_rel_keyed_on_a_later_parallel_rel",
             "merge_rel_keyed_on_the_oldest_parallel_rel",
             "merge_rel_keyed_on_none_of_the_parallel_rels",
+            "deleted_one_of_several_parallel_rels",
+            "deleted_a_middle_one_of_parallel_rels",
+            "created_rel_reused_a_freed_id",
+            "revisited_end_of_deleted_rel_after_its_id_was_reused",
         ]
     }
     fn generate(&self, s: &mut Streams, _run_index: u64, _tier: Tier) -> Case {
@@ -771,8 +913,14 @@ impl Scenario for C04 {
         case.knobs.insert("avoid".into(), json!(s.knobs.below(4)));
         case.knobs.insert("sched".into(), json!((0..24).map(|_| s.sched.below(6)).collect::<Vec<_>>()));
         let n = s.knobs.short_len(3, 14);
+        let focus = s.knobs.chance(1, 3);
+        case.knobs.insert("focus".into(), json!(focus));
+        let n = if focus { n.max(5) } else { n };
+        let mut prev: (String, String) = (String::new(), String::new());
         for _ in 0..n {
-            case.events.push(gen_event(&mut s.workload, clients));
+            let ev = gen_event(&mut s.workload, clients, focus, (&prev.0, &prev.1));
+            prev = (prev.1, ev["t"].as_str().unwrap_or("").to_string());
+            case.events.push(ev);
         }
         case
     }
@@ -813,6 +961,11 @@ impl Scenario for C04 {
         m.next_node = 1;
         m.next_edge = 1;
         let mut next_k: i64 = 1;
+        // keys of nodes that lost a relationship in an earlier statement (what the `revisit_*` templates go back to)
+        let mut lost: Vec<i64> = Vec::new();
+        // relationship ids that are free at the moment / that were freed and handed out again (probes only)
+        let mut freed_rel_ids: BTreeSet<u64> = BTreeSet::new();
+        let mut freed_reused: BTreeSet<u64> = BTreeSet::new();
         // per-client queues of event indices
         let mut queues: Vec<Vec<usize>> = vec![Vec::new(); clients];
         for (i, ev) in case.events.iter().enumerate() {
@@ -843,7 +996,7 @@ impl Scenario for C04 {
                     let ev = &case.events[ei];
                     let t = s(ev, "t").to_string();
                     let x: Vec<u64> = ev["x"].as_array().map(|a| a.iter().map(|v| v.as_u64().unwrap_or(0)).collect()).unwrap_or_default();
-                    let mut ctx = Ctx { m: &m, next_k: &mut next_k, x, ret: ev["ret"].as_bool().unwrap_or(false) };
+                    let mut ctx = Ctx { m: &m, next_k: &mut next_k, x, ret: ev["ret"].as_bool().unwrap_or(false), lost: &lost };
                     // avoidance knobs (see generate)
                     if (avoid & 1) == 1 && t == "pipe_match_with_merge_rel" {
                         continue;
@@ -944,12 +1097,26 @@ impl Scenario for C04 {
                             break;
                         }
                     } else {
+                        // "deleting a node that still has relationships without DETACH is refused" — and only
+                        // such a node: the refusal states a fact about the graph, which must be true of it
+                        if e.contains("still has") && e.contains("relationship") {
+                            let bound: Vec<u64> = delete_targets(&m, &st);
+                            if !bound.is_empty() && bound.iter().all(|id| m.degree(*id) == 0) {
+                                o.violate(Violation::new(
+                                    format!("C04/wrong_refusal/{t}/node_has_no_relationships"),
+                                    format!("{detail_head} was refused ({e}) but no node it deletes has a relationship in {}", m.d.describe()),
+                                    step,
+                                ));
+                                break;
+                            }
+                        }
                         o.probe("engine_refused");
                         o.probe(&format!("engine_refused/{t}"));
                         // what a refused statement leaves behind is C05's subject: re-synchronise
                         if real.canonical() != m.canonical() {
                             o.probe("refusal_left_partial_effect");
                         }
+                        lost_rel_ends(&m.d, &real, &mut lost);
                         m = ModelGraph::from_dump(&real);
                         version += 1;
                     }
@@ -1021,6 +1188,48 @@ impl Scenario for C04 {
                     if ap.input_rows_max >= 1 && (ap.merge_matched > 0 || st.shape().starts_with("MATCH")) && real.canonical() != m.canonical() {
                         matched_and_wrote = true;
                     }
+                    // ---- what the new templates reached
+                    if t == "delete_parallel_rel" && ap.deleted_rels > 0 {
+                        // relationships between the same ordered pair before / after
+                        let pairs = |d: &crate::kit::dump::Dump| d.edges.values().map(|e| (e.src, e.dst)).collect::<Vec<_>>();
+                        let after = pairs(&real);
+                        let gone: Vec<&crate::kit::dump::GEdge> = m.d.edges.iter().filter(|(id, e)| real.edges.get(*id) != Some(*e)).map(|(_, e)| e).collect();
+                        if gone.iter().any(|e| after.iter().any(|p| *p == (e.src, e.dst))) {
+                            o.probe("deleted_one_of_several_parallel_rels");
+                            // neither the oldest nor the newest of its pair
+                            if gone.iter().any(|e| {
+                                let ids: Vec<u64> = m.d.edges.iter().filter(|(_, o2)| (o2.src, o2.dst) == (e.src, e.dst)).map(|(i, _)| *i).collect();
+                                let me = m.d.edges.iter().find(|(_, o2)| *o2 == *e).map(|(i, _)| *i).unwrap_or(0);
+                                ids.len() >= 3 && ids.first() != Some(&me) && ids.last() != Some(&me)
+                            }) {
+                                o.probe("deleted_a_middle_one_of_parallel_rels");
+                            }
+                        }
+                    }
+                    if ap.created_rels > 0 && real.edges.iter().any(|(id, e)| freed_rel_ids.contains(id) && m.d.edges.get(id) != Some(e)) {
+                        o.probe("created_rel_reused_a_freed_id");
+                    }
+                    if t.starts_with("revisit_") && !lost.is_empty() {
+                        let touched: BTreeSet<i64> = delete_targets(&m, &st).into_iter().chain(match_start(&m, &st)).filter_map(|id| m.d.nodes.get(&id).and_then(|n| n.props.get("k")).and_then(|c| match V::from_canon(c) { V::I(k) => Some(k), _ => None })).collect();
+                        if touched.iter().any(|k| lost.contains(k)) {
+                            o.probe("revisited_end_of_deleted_rel");
+                            if !freed_reused.is_empty() {
+                                o.probe("revisited_end_of_deleted_rel_after_its_id_was_reused");
+                            }
+                        }
+                    }
+                    for (id, e) in &m.d.edges {
+                        if real.edges.get(id) != Some(e) {
+                            freed_rel_ids.insert(*id);
+                        }
+                    }
+                    for (id, e) in &real.edges {
+                        if freed_rel_ids.contains(id) && m.d.edges.get(id) != Some(e) {
+                            freed_rel_ids.remove(id);
+                            freed_reused.insert(*id);
+                        }
+                    }
+                    lost_rel_ends(&m.d, &real, &mut lost);
                     // keep the store's ids in the model from here on (ids are not compared, contents are)
                     m = ModelGraph::from_dump(&real);
                     version += 1;
